@@ -210,6 +210,9 @@ package varlink
 // ---- registration and introspection tables (C13)
 
 //@ fieldrange Service.conncounter -4611686018427387904 4611686018427387904
+//@ ghost gCntDelta [ref]int
+//@ ghost gAccDelta int
+//@ fielddelta Service.conncounter gCntDelta
 
 //@ pred wfS(s) = s != nil && s.interfaces != nil && s.descriptions != nil && dispatchersNonNil(s) &&
 //@     (forall k string :: has(s.interfaces, k) <==> has(s.descriptions, k)) &&
@@ -252,20 +255,19 @@ package varlink
 //@ func (*Service).handleConnection$1 {C10 C14 C15 | safety: C10}
 //@   locks *s
 //@   requires [nn] *s != nil && *wg != nil && !held[*s]
-//@   modifies (*s).conncounter, held, wgDones, gCntIn
-//@   ghostset at load(conncounter)#1 : gCntIn = res0
-//@   ensures [released C10 C14 C15] (*s).conncounter == gCntIn - 1 && wgDones[*wg] == old(wgDones)[*wg] + 1 && !held[*s]
+//@   modifies (*s).conncounter, held, wgDones, gCntDelta
+//@   ensures [released C10 C14 C15] gCntDelta[*s] == old(gCntDelta)[*s] - 1 && wgDones[*wg] == old(wgDones)[*wg] + 1 && !held[*s]
 //@   ensures [frame C10 C14] forall r ref :: r != *s ==> held[r] == old(held)[r]
 
 //@ func (*Service).handleConnection {C01 C02 C10 C14 C15 | safety: C10}
 //@   locks s
 //@   requires [nn] s != nil && conn != nil && wg != nil && dispatchersNonNil(s) && !held[s]
-//@   modifies s.conncounter, held, wgDones, gCntIn, closed, gNewConn, gHandlerErr, dlRpast, dlRzero, dlRctx, helper, gDlFail, gCancelled, gCtxErr, sockOff, bufLo, bufHi, gRdCalls, gSends, gSentVal, gSentErr, wcount, wlastErr, wlastCont, wlastParams, dcount, dlastIface, dlastMethod, dlastResult, gm, gDecErr, gMethod, gOneway
+//@   modifies s.conncounter, held, wgDones, gCntDelta, closed, gNewConn, gHandlerErr, dlRpast, dlRzero, dlRctx, helper, gDlFail, gCancelled, gCtxErr, sockOff, bufLo, bufHi, gRdCalls, gSends, gSentVal, gSentErr, wcount, wlastErr, wlastCont, wlastParams, dcount, dlastIface, dlastMethod, dlastResult, gm, gDecErr, gMethod, gOneway
 //@   ghostset at call(NewConn)#1 : gHandlerErr = nil
 //@   ghostset at call(HandleMessage)#1 : gHandlerErr = res0
 //@   ensures [onereader C01 C02 C03 C10] gNewConn == old(gNewConn) + 1
 //@   ensures [closed C10 C14] closed[conn]
-//@   ensures [released C10 C14 C15] s.conncounter == gCntIn - 1 && wgDones[wg] == old(wgDones)[wg] + 1 && !held[s]
+//@   ensures [released C10 C14 C15] gCntDelta[s] == old(gCntDelta)[s] - 1 && wgDones[wg] == old(wgDones)[wg] + 1 && !held[s]
 //@   assert [strip C01 C02 C10] at call(HandleMessage)#1 : err == nil && len(request) >= 1 && request[len(request) - 1] == 0 && arg3 == request[0:len(request) - 1] && arg2 == boxed(ctxConn) && arg0 == s
 //@   assert [reader C02] at call(ReadBytes)#1 : arg0 == ctxConn && arg2 == 0
 //@   assert [close C10] at call(Close)#1 : arg0 == conn
@@ -464,12 +466,12 @@ package varlink
 //@   locks s
 //@   role server
 //@   requires [nn] s != nil && !held[s] && dispatchersNonNil(s)
-//@   modifies s.protocol, s.address, s.listener, s.running, s.conncounter, held, closed, wgAdds, wgWaited, gDlOk, gSetDl, gAccErr, gAccTimeout, gRunSeen, gCntSeen, gCnt, gAdds, gBound, gBindRun, gRemoved, gAct, gPidOk, gNfds, gNfdsOk, gNamesSet, gNames, gFd, gFdCalled, gFLErr
+//@   modifies s.protocol, s.address, s.listener, s.running, s.conncounter, held, closed, wgAdds, wgWaited, gDlOk, gSetDl, gAccErr, gAccTimeout, gRunSeen, gCntSeen, gCntDelta, gAccDelta, gAdds, gBound, gBindRun, gRemoved, gAct, gPidOk, gNfds, gNfdsOk, gNamesSet, gNames, gFd, gFdCalled, gFLErr
 //@   ghostset at defer(Listen$1)#1 : gBound = nil
 //@   ghostset at defer(Listen$1)#1 : gAccErr = nil
 //@   ghostset at load(listener)#1 : gBound = res0
 //@   ghostset at call(Accept)#1 : gAccErr = res1
-//@   ghostset at load(conncounter)#2 : gCnt = res0
+//@   ghostset at call(Accept)#1 : gAccDelta = gCntDelta[s]
 //@   ghostset at call(Accept)#1 : gAdds = wgAdds[addr_wg]
 //@   ghostset at call(Timeout)#1 : gAccTimeout = res0
 //@   ghostset at load(conncounter)#1 : gCntSeen = res0
@@ -482,7 +484,7 @@ package varlink
 //@   ensures [released C15] gBound != nil ==> closed[gBound]
 //@   ensures [drained C14] wgWaited[addr_wg]
 //@   assert [rearm C15] at call(Accept)#1 : arg0 == l && (timeout != 0 ==> gDlOk)
-//@   assert [account C14] at go#1 : s.conncounter == gCnt + 1 && wgAdds[addr_wg] == gAdds + 1 && arg0 == s && arg2 == conn && arg3 == addr_wg && gAccErr == nil
+//@   assert [account C14] at go#1 : gCntDelta[s] == gAccDelta + 1 && wgAdds[addr_wg] == gAdds + 1 && arg0 == s && arg2 == conn && arg3 == addr_wg && gAccErr == nil
 //@   loop 1 invariant [iter] !held[s] && (gAccErr == nil || gAccTimeout) && l == gBound && l != nil && s.listener == gBound && (timeout == 0 ==> gSetDl == old(gSetDl))
 //@   loop 1 decreases *
 
@@ -490,12 +492,12 @@ package varlink
 //@   locks s
 //@   role server
 //@   requires [nn] s != nil && !held[s] && dispatchersNonNil(s)
-//@   modifies s.protocol, s.address, s.listener, s.running, s.conncounter, held, closed, wgAdds, wgWaited, gDlOk, gSetDl, gAccErr, gAccTimeout, gRunSeen, gCntSeen, gCnt, gAdds, gBound
+//@   modifies s.protocol, s.address, s.listener, s.running, s.conncounter, held, closed, wgAdds, wgWaited, gDlOk, gSetDl, gAccErr, gAccTimeout, gRunSeen, gCntSeen, gCntDelta, gAccDelta, gAdds, gBound
 //@   ghostset at defer(DoListen$1)#1 : gBound = nil
 //@   ghostset at defer(DoListen$1)#1 : gAccErr = nil
 //@   ghostset at load(listener)#1 : gBound = res0
 //@   ghostset at call(Accept)#1 : gAccErr = res1
-//@   ghostset at load(conncounter)#2 : gCnt = res0
+//@   ghostset at call(Accept)#1 : gAccDelta = gCntDelta[s]
 //@   ghostset at call(Accept)#1 : gAdds = wgAdds[addr_wg]
 //@   ghostset at call(Timeout)#1 : gAccTimeout = res0
 //@   ghostset at load(conncounter)#1 : gCntSeen = res0
@@ -509,7 +511,7 @@ package varlink
 //@   ensures [drained C14] wgWaited[addr_wg]
 //@   ensures [nolistener C14] old(s.listener) == nil ==> result != nil
 //@   assert [rearm C15] at call(Accept)#1 : arg0 == l && (timeout != 0 ==> gDlOk)
-//@   assert [account C14] at go#1 : s.conncounter == gCnt + 1 && wgAdds[addr_wg] == gAdds + 1 && arg0 == s && arg2 == conn && arg3 == addr_wg && gAccErr == nil
+//@   assert [account C14] at go#1 : gCntDelta[s] == gAccDelta + 1 && wgAdds[addr_wg] == gAdds + 1 && arg0 == s && arg2 == conn && arg3 == addr_wg && gAccErr == nil
 //@   loop 1 invariant [iter] !held[s] && (gAccErr == nil || gAccTimeout) && l == gBound && l != nil && s.listener == gBound && (timeout == 0 ==> gSetDl == old(gSetDl))
 //@   loop 1 decreases *
 
